@@ -1586,6 +1586,7 @@ class GitTreeTransform(DiskTreeTransform):
                     if trans_id in self._new_contents:
                         modified_paths.append(full_path)
                 if trans_id in self._new_executability:
+                    mover.note_mode(full_path)
                     self._set_executability(path, trans_id)
                 if trans_id in self._observed_sha1s:
                     o_sha1, _o_st_val = self._observed_sha1s[trans_id]
